@@ -564,7 +564,11 @@ impl<E: Elem> Interp<E> {
                     panic_msg(&p)
                 };
                 drop(p);
-                ev!("\"ev\":\"unwound\",\"obs\":{},\"msg\":{}", obs, jstr(&msg));
+                let has = {
+                    let _b = crate::events::Bypass::new();
+                    msg.contains(&format!("expected {} items", n))
+                };
+                ev!("\"ev\":\"unwound\",\"obs\":{},\"msg\":{},\"has_expected_msg\":{}", obs, jstr(&msg), has);
             }
         }
     }
